@@ -58,8 +58,7 @@ def base_key(e):
     return ks
 
 
-def check_pair(ctx):
-    inst = "C06.pair"
+def check_pair(ctx, inst="C06.pair"):
     total_sites = 0
     for fn, n_rm in (("FreeSpaceManager::allocate_sectors", 1), ("FreeSpaceManager::try_merge_spaces", 2)):
         body = ctx.fn(fn, inst)
@@ -299,8 +298,17 @@ def check_valid(ctx):
     sector count, the data-area start is inclusive, empty ranges are refused (operands and strictness pinned)"""
     from rules.common import pin_comparisons
     inst = "C06.valid"
+    dev_fields = set()
     def dev(e):
-        return e.k == "bin" and e.extra == "Div" and e.has_field("FreeSpaceManager", "device_size") and e.has_const(name="FEOX_BLOCK_SIZE")
+        # the device's sector count: built from the manager's own fields (and the block size) only - `device_size / BLOCK`
+        # today, a cached sector count would do as well, provided whoever sets the size sets it too (checked below)
+        fl = [x for x in e.walk() if x.k == "field" and (x.extra[0] or "").endswith("FreeSpaceManager")]
+        ok = bool(fl) and not any(x.k == "call" for x in e.walk()) and not any(x.k == "arg" and x.extra[0] != 1 for x in e.walk()) and \
+            all(x.k in ("field", "arg", "const", "cast", "bin", "deref", "ref") for x in e.walk()) and \
+            all(x.extra == "Div" for x in e.walk() if x.k == "bin")
+        if ok:
+            dev_fields.update(x.extra[1] for x in fl)
+        return ok
     def is_arg(i):
         return lambda e: e.k == "arg" and e.extra[0] == i
     def fld(f):
@@ -334,6 +342,27 @@ def check_valid(ctx):
         ])
         sz = [n for n in b.calls() if R.call_matches(n.ev, "checked_add")]
         ctx.check(len(sz) == 1, inst, "PIN", b.path, "start + size is overflow-checked", None)
+    # the bound the predicates read is set wherever the device size is set: a manager built by initialize() (fresh device)
+    # and one configured by set_device_size() (reopen) validate against the same, known, device end
+    ctx.check(bool(dev_fields), inst, "anchor", "-", "fields the device bound is read from (found %s)" % sorted(dev_fields), None)
+    for f in sorted(dev_fields):
+        for setter in ("FreeSpaceManager::initialize", "FreeSpaceManager::set_device_size"):
+            sb = ctx.fn(setter, inst)
+            if sb is None:
+                continue
+            w = R.field_write("FreeSpaceManager", f)(sb)
+            ctx.check(bool(w), inst, "FIELDW", sb.path, "%s sets FreeSpaceManager.%s, which the range-validity predicates read as the device bound" % (setter.rsplit("::", 1)[-1], f), None)
+    # the bound is skipped only while no size is known: the enabling test reads the same fields
+    for fn in ("FreeSpaceManager::is_valid_sector_range", "FreeSpaceManager::is_valid_free_space"):
+        b = ctx.fn(fn, inst)
+        if b is None:
+            continue
+        en = [A.switch_info(b, s_).root for s_ in A.switches(b)]
+        en = [r for r in en if r.k == "bin" and r.extra == "Lt" and r.a[0].k == "const" and (r.a[0].extra or {}).get("val") == 0 and
+              any(x.k == "field" and (x.extra[0] or "").endswith("FreeSpaceManager") for x in r.a[1].walk())]
+        for r in en:
+            fs = {x.extra[1] for x in r.a[1].walk() if x.k == "field" and (x.extra[0] or "").endswith("FreeSpaceManager")}
+            ctx.check(fs <= dev_fields, inst, "PIN", b.path, "the device bound is enabled by the field it is computed from", None, {"enabling": sorted(fs), "bound": sorted(dev_fields)})
 
 
 def check(ctx):
